@@ -35,7 +35,9 @@ func VerifMakeGadget(ctxHash *hash.Hash, group curve.Curve) []curve.Scalar {
 func VerifEncode(beta curve.Scalar, noise []curve.Scalar) ([]byte, error) { return encode(beta, noise) }
 
 // VerifCorreOTSendResult exposes the U columns and Q rows of a correlated OT send result.
-func (r *CorreOTSendResult) VerifUQ() ([params.OTParam][]byte, [][params.OTBytes]byte) { return r._U, r._Q }
+func (r *CorreOTSendResult) VerifUQ() ([params.OTParam][]byte, [][params.OTBytes]byte) {
+	return r._U, r._Q
+}
 
 func (r *CorreOTReceiveResult) VerifT() [][params.OTBytes]byte { return r._T }
 func (s *CorreOTSendSetup) VerifDelta() ([params.OTBytes]byte, [params.OTParam][params.OTBytes]byte) {
@@ -44,5 +46,7 @@ func (s *CorreOTSendSetup) VerifDelta() ([params.OTBytes]byte, [params.OTParam][
 func (s *CorreOTReceiveSetup) VerifK() ([params.OTParam][params.OTBytes]byte, [params.OTParam][params.OTBytes]byte) {
 	return s._K_0, s._K_1
 }
-func (r *ExtendedOTSendResult) VerifV() ([][params.OTBytes]byte, [][params.OTBytes]byte) { return r._V0, r._V1 }
-func (r *ExtendedOTReceiveResult) VerifVChoices() [][params.OTBytes]byte                 { return r._VChoices }
+func (r *ExtendedOTSendResult) VerifV() ([][params.OTBytes]byte, [][params.OTBytes]byte) {
+	return r._V0, r._V1
+}
+func (r *ExtendedOTReceiveResult) VerifVChoices() [][params.OTBytes]byte { return r._VChoices }
